@@ -295,7 +295,7 @@ def explore(fn, init, transfer=None, evalcond=None, refine=None, max_states=2000
     return witnesses, {'states': len(parent), 'edges': nedges}
 
 
-def effect_sequences(prog, fn, event_of, param_values=None, follow=None, depth=0):
+def effect_sequences(prog, fn, event_of, param_values=None, follow=None, depth=0, bindings=None):
     """set of event tuples over all paths of fn.  event_of(f, nid) -> event or None.  Calls to repository functions accepted by follow(g)
     (default: defined in the same file) are inlined up to depth 3, with constant arguments bound to the callee's parameters; a callee whose
     paths disagree contributes the event '?'."""
@@ -306,7 +306,7 @@ def effect_sequences(prog, fn, event_of, param_values=None, follow=None, depth=0
         if f.id == fn.id and n['k'] == 'var' and n.get('vk') == 'param' and n.get('pidx') in pv:
             return (pv[n['pidx']],)
         return None
-    ev = Evaluator(fn, {}, custom=custom, prog=prog)
+    ev = Evaluator(fn, dict(bindings or {}), custom=custom, prog=prog)
 
     def transfer(f, nid, st):
         e = event_of(f, nid)
@@ -324,7 +324,7 @@ def effect_sequences(prog, fn, event_of, param_values=None, follow=None, depth=0
                         sub_pv[k] = cv[1]
                     elif cv and cv[0] == 'enum':
                         sub_pv[k] = cv
-                sub = effect_sequences(prog, g, event_of, sub_pv, follow, depth + 1)
+                sub = effect_sequences(prog, g, event_of, sub_pv, follow, depth + 1, bindings)
                 if len(sub) == 1:
                     only = next(iter(sub))
                     return st + only if only else None
